@@ -32,13 +32,15 @@ REAL_ONLY = ("GDE3", "OMOPSO", "SMPSO", "CMAES")          # arithmetic on the va
 MIN_ONLY = ("NSGAIII", "MOEAD")                            # constructor raises PlatypusError for MAXIMIZE
 SINGLE_OBJ = ("GA", "ES")
 MUTATOR_ALGS = ("ES", "PAES", "SMPSO")                     # take a Mutation (arity 1) where others take a variator
-KINDS = ("real", "integer", "binary", "perm", "subset", "binint")
+KINDS = ("real", "integer", "binary", "perm", "subset", "binint", "realtiny")
+REAL_KINDS = ("real", "realtiny")
 
 # ----------------------------------------------------------------------------
 # user problems: RAW functions (pure, deterministic) and declared constraints
 # ----------------------------------------------------------------------------
 CONS_DECL = {   # "cmp" style: only == <= >= != (exact, shipped to Coq); "strict": < > and a callable (oracle only)
     "real": ["<=0", ">=0.5"],
+    "realtiny": ["<=0", ">=0.5"],
     "integer": ["<=0", "!=2"],
     "binary": ["<=0", ">=1"],
     "binint": ["<=0", ">=1"],
@@ -51,6 +53,13 @@ STRICT_DECL = ["<0.5", ">-1"]
 def raw_real(x):
     o = [x[0] * x[0] + 0.5 * x[1], (x[0] - 1.0) ** 2 + x[1] * x[1]]
     c = [math.floor(x[0] * 8) / 8 - 0.25, math.floor(x[1] * 4) / 4]
+    return o, c
+
+
+def raw_realtiny(x):
+    # legal but very narrow ranges (1e-15, 2e-16 wide): every move of an operator is far below EPSILON
+    o = [x[0] * 1e15 + x[1] * 1e16, (x[0] * 1e15 - 0.5) ** 2 + abs(x[1]) * 1e16]
+    c = [math.floor(x[0] * 8e15) / 8 - 0.25, math.floor(x[1] * 4e16) / 4]
     return o, c
 
 
@@ -88,7 +97,7 @@ def raw_subset(x):
     return o, c
 
 
-RAW = {"real": raw_real, "integer": raw_integer, "binary": raw_binary, "binint": raw_binint,
+RAW = {"real": raw_real, "realtiny": raw_realtiny, "integer": raw_integer, "binary": raw_binary, "binint": raw_binint,
        "perm": raw_perm, "subset": raw_subset}
 
 
@@ -102,6 +111,7 @@ def make_types(kind):
     from platypus import Real, Integer, Binary, Permutation, Subset
     return {
         "real": lambda: [Real(-1, 2), Real(0, 1)],
+        "realtiny": lambda: [Real(0.0, 1e-15), Real(-1e-16, 1e-16)],
         "integer": lambda: [Integer(-3, 5), Integer(0, 6)],
         "binary": lambda: [Binary(5), Binary(3)],
         "binint": lambda: [Binary(4), Integer(0, 6)],
@@ -160,8 +170,8 @@ class SubProblem(_Problem):
 
 
 def strict_callable(x):
-    """a constraint given as a function: feasible iff it returns 0"""
-    return 0 if x <= 0.25 else 2 * x
+    """a constraint given as a function: feasible iff it returns 0 (negative when violated: abs() matters)"""
+    return 0 if x <= 0.25 else -2 * x
 
 
 def make_problem(cfg):
@@ -369,7 +379,7 @@ def explicit_operator(cfg, want_mutator):
     """an explicitly supplied operator (index cfg['variator'] = 'explicit:<i>')"""
     from platypus import (GAOperator, SBX, PM, UM, PCX, UNDX, SPX, DifferentialEvolution, HUX, BitFlip, PMX, Swap,
                           Insertion, SSX, Replace, CompoundOperator, CompoundMutation)
-    kind = cfg["kind"]
+    kind = "real" if cfg["kind"] == "realtiny" else cfg["kind"]
     i = int(cfg["variator"].split(":")[1])
     if want_mutator:
         opts = {
@@ -454,7 +464,7 @@ def build_algorithm(cfg, problem, evaluator, generator=None):
         # restarts (AdaptiveTimeContinuation) that actually happen within a short run
         a.remove_extension(P.AdaptiveTimeContinuationExtension)
         mut = None
-        if cfg["kind"] != "real":
+        if cfg["kind"] not in REAL_KINDS:
             mut = explicit_operator(dict(cfg, variator="explicit:0"), True)
         ext_kw = dict(window_size=2, max_window_size=3, population_ratio=2.0, min_population_size=4, max_population_size=12)
         if mut is not None:
@@ -917,7 +927,9 @@ def c07_case_lit(res, expect=True):
 # configuration space
 # ----------------------------------------------------------------------------
 def applicable(alg, kind):
-    return kind == "real" or alg not in REAL_ONLY
+    if alg == "CMAES":
+        return kind == "real"       # default sigma = 0.5 never samples inside a 1e-15 wide box: the rejection loop spins
+    return kind in REAL_KINDS or alg not in REAL_ONLY
 
 
 def all_configs():
@@ -1229,7 +1241,9 @@ def cma_cases(rng, n):
         try:
             sols = alg.sample()
         except StopRun:
-            fails.append(("cmaes-sample-consumed-unexpected-draws", "CMAES.sample asked for more Gaussian draws than the modelled loop", rp))
+            # the implementation rejected a candidate the model accepts: a model/code disagreement (correspondence),
+            # not by itself a violation of the property
+            stats.setdefault("disagreements", []).append(rp)
             continue
         finally:
             random.gauss = saved
@@ -1286,7 +1300,7 @@ def operator_catalog(kind):
     class _Stub:
         nfe = 30
         swarm_size = 6
-    if kind == "real":
+    if kind in REAL_KINDS:
         return {"PM": lambda: PM(0.5), "SBX": lambda: SBX(0.7), "DifferentialEvolution": lambda: DifferentialEvolution(0.3, 0.5),
                 "UniformMutation": lambda: UniformMutation(0.4, 0.5), "NonUniformMutation": lambda: NonUniformMutation(0.4, 0.5, 10, _Stub()),
                 "UM": lambda: UM(0.4), "PCX": lambda: PCX(3, 2), "UNDX": lambda: UNDX(3, 2), "SPX": lambda: SPX(3, 2),
